@@ -716,6 +716,44 @@ void checkL3(const plan::Plan& p, const RunData& rd, hz::RunResult* res) {
       }
     }
   }
+  // ---- C12 (family c12n): the definition a circuit-less lookup selects must not depend on the order of the lines ----
+  // two names, each defined in the same two circuits under the same (true) condition, one name with the smaller circuit
+  // first and the other with the larger one first: whichever rule picks the circuit, it must pick the same one for both
+  if (family == "c12n") {
+    std::map<std::string, std::pair<Bytes, Bytes>> ids;
+    for (auto& l : p.lines) if (l.kind == "lookup") ids[l.get("name")] = std::make_pair(ref::unhex(l.get("a")), ref::unhex(l.get("b")));
+    std::map<std::string, char> chosen;   // name -> 'a' / 'b'
+    std::map<std::string, std::string> how;
+    for (const CmdRecord& r : rd.cmds) {
+      if (r.tag != "namelookup" || r.doneT < 0 || !ids.count(r.line.get("name"))) continue;
+      const auto& pr = ids[r.line.get("name")];
+      char c2 = 0;
+      for (const Exchange& e : rd.exchanges) {
+        if (e.t < r.sentT || e.t > r.doneT || e.master.size() < 8) continue;
+        if (std::equal(pr.first.begin(), pr.first.end(), e.master.begin() + 5)) c2 = c2 == 'b' ? 'x' : 'a';
+        else if (std::equal(pr.second.begin(), pr.second.end(), e.master.begin() + 5)) c2 = c2 == 'a' ? 'x' : 'b';
+      }
+      judged++;
+      if (c2 != 'a' && c2 != 'b') continue;
+      const std::string& name = r.line.get("name");
+      if (chosen.count(name) && chosen[name] != c2) {
+        res->violate("C12", "history-dependent-result", "circuit-less-lookup changes", "[" + r.request + "] selected the other circuit than the same command before");
+      }
+      chosen[name] = c2;
+      how[name] = r.request;
+    }
+    if (chosen.size() == 2) {
+      auto it = chosen.begin();
+      char c1 = it->second; ++it;
+      if (c1 != it->second) {
+        char buf[300];
+        snprintf(buf, sizeof(buf), "[%s] selected the definition of the %s circuit, [%s] that of the %s circuit: the two names differ only in the order of their lines", how[chosen.begin()->first].c_str(),
+                 c1 == 'a' ? "first (smaller)" : "second (larger)", how[it->first].c_str(), it->second == 'a' ? "first (smaller)" : "second (larger)");
+        res->violate("C12", "load-order-dependent-result", "circuit-less-lookup", buf);
+      }
+      res->counters["c12n.pairs_judged"]++;
+    }
+  }
   // ---- C18: MQTT topics built from the template map back to the same (circuit, name, field) ----
   if (!rd.mqttIn.empty()) {
     std::string tmpl;
